@@ -2,9 +2,12 @@ mod core;
 mod driver;
 mod htmlgen;
 mod prng;
+mod rrule;
+mod w1;
 mod w2;
 mod w2d;
 mod w2t;
+mod w3;
 
 use crate::core::*;
 use crate::driver::*;
@@ -17,6 +20,8 @@ macro_rules! with_world {
             "W2" => $func::<w2::W2>($($arg),*),
             "W2T" => $func::<w2t::W2T>($($arg),*),
             "W2D" => $func::<w2d::W2D>($($arg),*),
+            "W3" => $func::<w3::W3>($($arg),*),
+            "W1" => $func::<w1::W1>($($arg),*),
             other => {
                 eprintln!("unknown world {other}");
                 std::process::exit(2);
@@ -81,6 +86,55 @@ fn plan(prop: &str, tier: Tier) -> Option<Plan> {
             assumptions: vec![
                 "R-dom reference edit (DESIGN appendix A.3): selectors limited to tag, tag.class, tag[attr=\"v\"] that the reference evaluates on its own tree; html/head/body are not selector subjects",
                 "documents satisfy the statement's precondition by construction (path tags unique, replace targets only repeated as siblings)",
+            ],
+        },
+        "C08" => Plan {
+            level: "exploration",
+            batches: vec![b("W3", "ops", 20000, 400000)],
+            assumptions: vec![
+                "reference = list of (pattern, id, value) scanned with the regex crate on ^p$ (case-insensitive when the tree is)",
+                "patterns have the shape produced from rules: escaped literal text interleaved with (?:...) marker groups, built by the library's own MarkerString::new",
+                "ids are unique among live entries except for the explicit re-insert (replace) operation",
+            ],
+        },
+        "C01" => Plan {
+            level: "exploration",
+            batches: vec![b("W1", "hist", 3000, 60000)],
+            assumptions: vec![
+                "R-rule (DESIGN appendix A.1) evaluates the triggers exposed by the public Route accessors; Rule -> Route conversion (URL normalisation, marker compilation) is not re-done (C09/C10)",
+                "domain: unique live ids, exclusion flags in {absent, true}, valid date/time/CIDR strings, paths on which URL normalisation is the identity",
+                "header regexes are searched unanchored and case-sensitively, as the code does (the statement is silent)",
+            ],
+        },
+        "C02" => Plan {
+            level: "exploration",
+            batches: vec![b("W1", "hist", 3000, 60000)],
+            assumptions: vec![
+                "oracle named by the statement: a router rebuilt from scratch from the live rules, in a seeded insertion order",
+                "snapshot isolation is checked against the answers (ids and captures) recorded when the router was frozen",
+                "histories respect id uniqueness; operations whose precondition fails are skipped and logged",
+            ],
+        },
+        "C17" => Plan {
+            level: "exploration",
+            batches: vec![b("W1", "hist", 3000, 60000)],
+            assumptions: vec!["cross-invariant on the real code only (no model): trace vs match on the same router after every step of the same histories as C01/C02"],
+        },
+        "C12" => Plan {
+            level: "exploration",
+            batches: vec![b("W1", "cache", 2500, 50000), b("W3", "cache", 12000, 240000)],
+            assumptions: vec![
+                "router level: every observation (match ids, Route::capture maps, canonicalised trace) is compared with a twin router that went through the same history from rule values, never cached and sharing no route with the cached one",
+                "tree level: find() compared with an uncached twin tree after every operation; (limit, level) pairs are sampled from {0,1,2,3,5,1000} x {None,0,1,2,3,7}",
+                "the concurrent form (cache on a derived router while readers use the published one) is decided by the shuttle world when built",
+            ],
+        },
+        "C11" => Plan {
+            level: "exploration",
+            batches: vec![b("W1", "actions", 2500, 50000)],
+            assumptions: vec![
+                "the harness owns the delivery order of matched routes (4 seeded permutations per probe) and the insertion order of rebuilt routers; sampling disabled",
+                "internal hash iteration orders are not behind a seam: they are sampled by rebuilding routers in-process (every HashMap instance has its own key) and by the cross-process determinism self-check",
             ],
         },
         _ => return None,
